@@ -365,7 +365,75 @@ def mon_c20(hs, prev, op, ok, trace, cur, known):
     return None
 
 
+def _expired(exp, now):
+    if exp == 'never':
+        return False
+    if exp[0] == 'h':
+        return int(exp[1:]) <= now // 5
+    return int(exp[1:]) <= now
+
+
+def mon_c18(hs, prev, op, ok, trace, cur, known):
+    for tok in ('bsei', 'stsei'):
+        info = cur.one('tok.%s.info' % tok)
+        if info is None:
+            continue
+        supply = int(info[0])
+        total = sum(int(b[1]) for b in cur.all('tok.%s.bal' % tok))
+        if total != supply:
+            if tok == 'bsei':
+                for k in known:
+                    if k.get('id') == 'F4' and hs.get('bsei_dup_init'):
+                        return ('known', 'F4', k.get('what', ''))
+            return ('violation', '%s: balances sum to %d but total_supply is %d' % (tok, total, supply))
+    t = op.split(' ')
+    if t[0] == 'inst_bsei':
+        rows = t[4:]
+        addrs = rows[0::2]
+        hs['bsei_dup_init'] = len(set(addrs)) != len(addrs)
+    if t[0] == 'inst_stsei' and ok:
+        hs['stsei_hub'] = t[2]
+    if t[0] == 'inst_bsei' and ok:
+        hs['bsei_hub'] = t[2]
+    if prev is None or not ok or t[0] != 'cw':
+        return None
+    tok, sender, verb = t[1], t[2], t[3]
+    pinfo = prev.one('tok.%s.info' % tok)
+    cinfo = cur.one('tok.%s.info' % tok)
+    if pinfo is None or cinfo is None:
+        return None
+    if verb == 'mint' and sender != pinfo[1]:
+        return ('violation', '%s: mint accepted from %s, minter is %s' % (tok, sender, pinfo[1]))
+    if verb == 'burn' and sender != hs.get(tok + '_hub', 'hub'):
+        return ('violation', '%s: burn accepted from %s' % (tok, sender))
+    if verb in ('transfer', 'transferfrom', 'incallow', 'decallow') and pinfo[0] != cinfo[0]:
+        return ('violation', '%s: %s changed total_supply %s -> %s' % (tok, verb, pinfo[0], cinfo[0]))
+    if verb in ('transferfrom', 'burnfrom', 'sendfrom'):
+        owner = t[4]
+        amt = int(t[6]) if verb in ('transferfrom', 'sendfrom') else int(t[5])
+        pal = prev.table('tok.%s.allow' % tok, 2).get((owner, sender))
+        now = int(prev.one('t')[0])
+        if pal is None:
+            if amt != 0:
+                return ('violation', '%s: %s of %d accepted without an allowance' % (tok, verb, amt))
+            return ('violation', '%s: %s accepted without a stored allowance' % (tok, verb)) if False else None
+        if _expired(pal[1], now):
+            return ('violation', '%s: %s accepted on an expired allowance (%s at t=%d)' % (tok, verb, pal[1], now))
+        if amt > int(pal[0]):
+            return ('violation', '%s: %s of %d exceeds the allowance %s' % (tok, verb, amt, pal[0]))
+        cal = cur.table('tok.%s.allow' % tok, 2).get((owner, sender))
+        left = int(cal[0]) if cal is not None else 0
+        if left != int(pal[0]) - amt:
+            return ('violation', '%s: allowance after %s is %d, expected %d' % (tok, verb, left, int(pal[0]) - amt))
+    if (tok == 'stsei' and verb in ('burn', 'burnfrom')) or (tok == 'bsei' and verb == 'burnfrom'):
+        want = 'm wasm %s %s check_slashing -' % (tok, hs.get(tok + '_hub', 'hub'))
+        if want not in trace:
+            return ('violation', '%s %s did not make the hub refresh its exchange rates (no CheckSlashing in the transaction)' % (tok, verb))
+    return None
+
+
 HISTORY_MONITORS = {
+    'C18': [mon_c18],
     'C10': [mon_c10, mon_rejected_unchanged],
     'C11': [mon_c11, mon_rejected_unchanged],
     'C17': [mon_c17],
